@@ -393,6 +393,7 @@ Proof.
       * intros d. cbn [coin_delta_of fst snd]. rewrite Hsur, andb_false_r. reflexivity.
     + injection H1 as <-.
       destruct ((x >=? cl_surplus_thr cl + cl_lot cl) && af_surplus (flags_of s app asset)) eqn:GS; [|exact (Hnone H2)].
+      destruct (negb (has_asset (cs s) (cl_asset cl) && has_asset (cs s) (cl_secondary cl))); [discriminate|].
       apply obind_ok in H2. destruct H2 as (s2 & H2 & H3).
       assert (Hsur : af_surplus (flags_of s app asset) = true) by (apply andb_true_iff in GS; tauto).
       assert (Hst : started s s' app asset = true).
